@@ -30,6 +30,7 @@ type Oblig struct {
 	Text   string
 	Pos    string
 	Hyp    Term
+	Hyp2   Term // cover obligations: the path condition before the assumption (dead code is not a vacuity problem)
 	Goal   Term
 	Cover  bool // expect sat of Hyp (reachability); Goal unused
 	Pre    bool // status decided at generation time (no solver query)
@@ -102,6 +103,8 @@ type FT struct {
 	topCon  *Contract
 	label   string // obligation name prefix when fn is nil (lemmas)
 	inQuant int
+	failSites []string // fail-stop ghost flags (one per call site that can fail)
+	failText  map[string]string
 	seenLens []Term // lengths of slices that exist as data (parameters, slices read from memory)
 	assignItems []*assignItem
 }
@@ -124,6 +127,7 @@ type frame struct {
 	dbg      map[types.Object][]ssa.Value
 	free     []*Val
 	lemPkg   *types.Package
+	loopEntryMem map[*loopInfo]*Mem
 }
 
 func (ft *FT) note(s string) { ft.partial[s] = true }
@@ -156,7 +160,13 @@ func (ft *FT) memGet(m *Mem, comp, sortS string) Term {
 func (ft *FT) havocAll(m *Mem) {
 	ft.ngen++
 	m.gen = ft.ngen
-	m.m = map[string]Term{}
+	keep := map[string]Term{}
+	for k, v := range m.m {
+		if strings.HasPrefix(k, "$F:") { // ghost fail-stop flags are not program memory
+			keep[k] = v
+		}
+	}
+	m.m = keep
 	m.ver = map[string]int{}
 }
 
@@ -186,6 +196,13 @@ func (ft *FT) load(m *Mem, lv *LV) *Val {
 		name, s := compFor(lv, l)
 		arr := ft.memGet(m, name, s)
 		t := selectNested(mkSelect(arr, lv.Ref), idxs)
+		if l.Lift == 0 && l.Kind == 'r' && ft.inQuant == 0 {
+			// a reference read from memory cannot designate an object that this function allocates later
+			bound := allocBase + int64(ft.nalloc)
+			t = ft.rangedDefKey(fmt.Sprintf("ref%d|", bound), "ldref", t, func(x Term) Term {
+				return mkAnd(app(SBool, ">=", x, intConst(0)), app(SBool, "<=", x, intConst(bound)))
+			})
+		}
 		if gInt && l.Lift == 0 {
 			switch l.Kind {
 			case 'i', 'u':
@@ -231,13 +248,17 @@ func inTypeRange2(l Leaf) func(Term) Term {
 // rangedDef names a term and attaches a range fact to the name (int mode: values read from memory
 // lie in their type's range).
 func (ft *FT) rangedDef(hint string, t Term, rng func(Term) Term) Term {
+	return ft.rangedDefKey("", hint, t, rng)
+}
+
+func (ft *FT) rangedDefKey(kp, hint string, t Term, rng func(Term) Term) Term {
 	if _, ok := intLitVal(t); ok {
 		return t
 	}
 	if ft.inQuant > 0 {
 		return t // the term mentions a bound variable: no global definition possible
 	}
-	key := "rd|" + t.T
+	key := "rd|" + kp + t.T
 	if n, ok := ft.memSyms[key]; ok {
 		return n
 	}
